@@ -319,6 +319,12 @@ def _guard_check_case(mod):
             where = _raised_in_repo(e)
             if where is None:
                 raise
+            from . import drive
+
+            if drive.solver_gave_up(case, e):
+                # LSODA exhausted under the case's own non-default solver options: a property of the request (see drive.solver_gave_up)
+                ctx.count("solver_gave_up_under_user_tolerances")
+                return None
             ctx.check("repository_call_completes", False, case, key=f"raises/{type(e).__name__}@{where}",
                       exc=f"{type(e).__name__}: {str(e)[:200]}")
 
